@@ -49,6 +49,8 @@ func c14Stmts() []string {
 		"SELECT * FROM nosuchtable;",                                         // 13 unknown table
 		"INSERT INTO u(k2, w) VALUES (1, 10);",                               // 14 insert into the join partner
 		"DELETE FROM u WHERE k2 = 1;",                                        // 15
+		"DELETE FROM t WHERE k >= 1 AND k <= 6;", // 16 range delete: empties the head page of the two-page heap
+		"DELETE FROM t WHERE k >= 7;",            // 17 range delete: empties the tail page of the two-page heap
 	}
 }
 
@@ -116,7 +118,7 @@ func c14Cfg(p c14Params) *WorldCfg {
 			if w.hist[len(w.hist)-1] == "begin:2" {
 				return []string{"raw:2:1"}
 			}
-			for _, i := range []int{9, 10, 11} {
+			for _, i := range []int{9, 10, 11, 16} {
 				ops = append(ops, fmt.Sprintf("raw:0:%d", i))
 			}
 			ops = append(ops, "commit:2")
